@@ -1,12 +1,13 @@
 (* Extract.v — extraction of the executable models (ExtrOcamlBasic only; Z, N, positive and
    nat stay Coq's own inductive datatypes; no Extract Constant). *)
 From Coq Require Extraction ExtrOcamlBasic.
-From CgreenVerif Require Import Defs Runner.
+From CgreenVerif Require Import Defs Runner Lemmas_Props.
 From CgreenVerif.Gen Require Import Facts.
 
 Extraction "../ocaml/model.ml"
   Runner.run_suite Runner.run_single Runner.exit_ok Runner.own Runner.tests_of Runner.test_steps
-  Runner.full_steps Runner.exec Runner.fw_init
+  Runner.full_steps Runner.exec Runner.fw_init Runner.trace
+  Lemmas_Props.ok_treeb
   BinInt.Z.add BinInt.Z.mul BinInt.Z.div BinInt.Z.modulo BinInt.Z.opp BinInt.Z.eqb BinInt.Z.ltb
   Facts.verdict_suite Facts.verdict_single Facts.rk_text Facts.rk_cute Facts.rk_xml
   Facts.rk_libxml Facts.rk_cdash Facts.msg_codes.
